@@ -741,3 +741,14 @@ BENIGN["C01"] += [
 SEEDED["C17"] += [
     (ATM, "    Jh = (cn2*(h**(5./3.))).sum(axis)\n", "    Jh = (cn2*(h**(5./3.))).sum(axis-1)\n", "I7"),
 ]
+
+# ---- the squared chord of gkl_kernel clamped at zero (A15, after the fix b976351): reverted, and with other guards
+SEEDED["C13"] += [
+    (KL, "np.sqrt(np.maximum(rad[i]**2 + rad[j]**2 -\n                                   2 * rad[i] * rad[j] *\n                                   np.cos(np.arange(nth) * 2 * np.pi / nth), 0))",
+     "np.sqrt(rad[i]**2 + rad[j]**2 -\n                                   2 * rad[i] * rad[j] *\n                                   np.cos(np.arange(nth) * 2 * np.pi / nth))", "A15"),
+    (KL, "np.cos(np.arange(nth) * 2 * np.pi / nth), 0))", "np.cos(np.arange(nth) * 2 * np.pi / nth), -1))", "A1"),
+]
+BENIGN["C13"] += [
+    (KL, "np.sqrt(np.maximum(rad[i]**2 + rad[j]**2 -", "np.sqrt(np.fmax(rad[i]**2 + rad[j]**2 -"),
+    (KL, "np.cos(np.arange(nth) * 2 * np.pi / nth), 0))", "np.cos(np.arange(nth) * 2 * np.pi / nth), 0.))"),
+]
